@@ -837,10 +837,9 @@ class Job:
     order:  [(python parameter, index or None)] in the order of the Lean binders
     dims:   symbolic dimension names of the definition -> used to instantiate the result shape at a call site"""
 
-    def __init__(self, rel, py, lean, params, order, cls=None, doc='', target=None, explicit_dims=(), returns=None):
+    def __init__(self, rel, py, lean, params, order, cls=None, doc='', target=None, returns=None):
         self.rel, self.py, self.lean, self.params, self.order, self.cls, self.doc = rel, py, lean, params, order, cls, doc
         self.target = target              # (variable, Lean kernel term, shape): the part before the first FFT call is that kernel
-        self.explicit_dims = explicit_dims
         self.result = None
         self.returns = returns
 
@@ -890,11 +889,7 @@ class Job:
                     a.shape = want
                 elif tuple(a.shape) != want:
                     raise TranslateError('argument %s of %s has shape %s, expected %s' % (p, self.py, a.shape, want))
-        terms, lifted = [], []
-        for d in self.explicit_dims:
-            if d not in mapping:
-                # dimensions given by 'dim' arguments
-                pass
+        lifted = []
         for (p, idx), spec in zip(self.order, self.binder_values()):
             a = args[p]
             if idx is not None:
@@ -1152,6 +1147,12 @@ def build_jobs(gen):
                              'torch `custom(field, kernel, zero_padding = False, aperture)` (%s) for a STACK `[k × n × m]` of fields: `fft2` / '
                              '`ifft2` act on the last two axes, a shift called without `dim` rolls every axis (the batch axis too), kernel and '
                              'aperture broadcast over the batch' % T_CLASSICAL)))
+
+    add(lambda: gen.run(Job(
+        T_CLASSICAL, 'custom', 'customOnesT',
+        {'field': G('u'), 'kernel': PY(None), 'zero_padding': PY(False), 'aperture': G('A')},
+        [('field', None), ('aperture', None)],
+        doc='torch `custom(field, kernel = None, zero_padding = False, aperture)` (%s): the kernel defaults to ones' % T_CLASSICAL)))
 
     # ---------------- torch: the methods
     def method(py, lean, zp, extra=None, order_extra=()):
